@@ -453,7 +453,12 @@ func probe(s *Sess, o *sim.Outcome, test string) {
 	}
 }
 
-func init() { reg("C13parsers", runParser); reg("C13receive", runRecv); reg("C13faults", runFault); reg("C13auth", runAuthPayload) }
+func init() {
+	reg("C13parsers", runParser)
+	reg("C13receive", runRecv)
+	reg("C13faults", runFault)
+	reg("C13auth", runAuthPayload)
+}
 
 func TestProp_C13_Receive(t *testing.T) {
 	defer sim.MarkCompleted("C13receive", false)
